@@ -13,6 +13,13 @@ package main
 //   dK      delete the cid key of K (present or not)      eN  delete the foreign key N
 //   calls: T<c|u>.<v> / N<c>, in order, or -; list: c.v sorted, or -
 //
+// hook, key-namespace modes (round 8 final; hookns.go): raw keys of SEVERAL components.
+//   C02 hook K <steps> => <calls>/<list>/<get>/<has>;…   the real Consensus (state namespace "", crdt datastore, hooks run)
+//   C02 hook Q <steps> => -/<list>/<get>/<has>;…         a real dsstate.State with namespace /s0 over an in-memory datastore
+//   +<key>=<C|u>.<V>  put the encoded pin; +<key>=g<N> put undecodable bytes; -<key> delete
+//   key: components joined by ':' — cN cid key of N, bN not base32, qN base32 of non-cid bytes, sN the name "s<N>"
+//   get: c.v for the cids 0..3 State.Get finds (E<c> = Get error other than not-found); has: 4 bits of State.Has
+//
 // cfg: the real Config.LoadJSON (→ applyJSONConfig → Validate) and batchingEnabled on boundary values.
 //
 //   C02 cfg J <size>,<age ns | ->,<queue | -> => err=<0|1> en=<0|1> eff=<size>,<age>,<queue>
@@ -120,6 +127,7 @@ func runHook(emit func(string), script string) {
 		cc.VerifRawDelete(hookKey(i))
 		cc.VerifRawDelete(foreignKey(i))
 	}
+	hookNsReset(cc)
 	takeCalls := func() string {
 		hookMu.Lock()
 		defer hookMu.Unlock()
